@@ -1,3 +1,218 @@
-import GambitV.Model.Bulk
+import GambitV.Lemmas.Bulk
+
+/-!
+# C05 — the bulk distance functions put `dist` of the right pair in every output cell
+
+`jaccarddist_array`, `jaccarddist_matrix` (chunked, with index selection), `jaccarddist_pairwise`
+(flat and square), `chunk_slices`, and the `prange` loop of `_jaccarddist_parallel`, all parametric
+in the two-signature distance `dist`.  Helper lemmas live in `Lemmas/Bulk.lean`.
+-/
 namespace GambitV.C05
+open GambitV
+
+/-! ### 1. `chunk_slices` -/
+
+/-- 1. The slices of `chunk_slices(n, size)`, clamped to `n` as NumPy slicing does, concatenate to
+`0..n-1` in order: nothing skipped, nothing repeated. -/
+theorem chunkSlices_partition (n size : Nat) (hs : 0 < size) :
+    (chunkSlices n size).flatMap (fun ab => List.range' ab.1 (min ab.2 n - ab.1)) = List.range n := by
+  unfold chunkSlices
+  rw [chunkSlicesFrom_flatMap n size hs n 0 (by omega), Nat.sub_zero, List.range_eq_range']
+
+/-- 1b. Every slice starts inside the range at a multiple of `size` and is `size` long before
+clamping. -/
+theorem chunkSlices_shape (n size : Nat) :
+    ∀ ab ∈ chunkSlices n size, ab.1 < n ∧ ab.2 = ab.1 + size ∧ size ∣ ab.1 :=
+  chunkSlicesFrom_shape n size n 0 (Nat.dvd_zero size)
+
+/-! ### 2. `jaccarddist_array` -/
+
+theorem arrayDists_length {α β γ : Type} (dist : α → β → γ) (q : α) (refs : List β) :
+    (arrayDists dist q refs).length = refs.length := by
+  simp [arrayDists]
+
+/-- 2. Output `j` of `jaccarddist_array` is the distance from the query to reference `j`. -/
+theorem arrayDists_get {α β γ : Type} (dist : α → β → γ) (q : α) (refs : List β) (j : Nat)
+    (h : j < refs.length) :
+    (arrayDists dist q refs)[j]'(by rw [arrayDists_length]; exact h) = dist q refs[j] := by
+  simp [arrayDists]
+
+/-! ### 3. `prange`: every schedule gives the same output -/
+
+/-- 3. Every order of whole iterations (every OpenMP schedule `σ`, a permutation of
+`0..|out|-1`) yields the same output, in which cell `i` holds `body i`. -/
+theorem prange_schedule_independent {γ : Type} (body : Nat → γ) (out : List γ) (σ : List Nat)
+    (hσ : σ.Perm (List.range out.length)) :
+    prangeRun body σ out = (List.range out.length).map body := by
+  apply List.ext_getElem?
+  intro i
+  rw [prangeRun_getElem?, List.getElem?_map]
+  by_cases hi : i < out.length
+  · have hmem : i ∈ σ := hσ.mem_iff.2 (List.mem_range.2 hi)
+    rw [if_pos ⟨hmem, hi⟩, List.getElem?_range hi]
+    rfl
+  · have h1 : ¬ (i ∈ σ ∧ i < out.length) := fun h => hi h.2
+    rw [if_neg h1, List.getElem?_eq_none (Nat.le_of_not_lt hi),
+      List.getElem?_eq_none (by rw [List.length_range]; exact Nat.le_of_not_lt hi)]
+    rfl
+
+/-- 3b. No iteration writes another iteration's cell: after running any set of iterations `σ`
+(distinct entries, as in a partially executed schedule), cells outside `σ` are unchanged, cells in
+`σ` hold their `body` value, and the length is unchanged.  (`hσ` is not needed by the proof: the
+statement also holds when an iteration is repeated.) -/
+theorem prange_partial {γ : Type} (body : Nat → γ) (out : List γ) (σ : List Nat) (_hσ : σ.Nodup) :
+    (prangeRun body σ out).length = out.length ∧
+    (∀ i, i ∉ σ → (prangeRun body σ out)[i]? = out[i]?) ∧
+    (∀ i, i ∈ σ → i < out.length → (prangeRun body σ out)[i]? = some (body i)) := by
+  refine ⟨prangeRun_length body σ out, ?_, ?_⟩
+  · intro i hi
+    rw [prangeRun_getElem?, if_neg (fun h => hi h.1)]
+  · intro i hi hlt
+    rw [prangeRun_getElem?, if_pos ⟨hi, hlt⟩]
+
+/-! ### 4. `jaccarddist_matrix` -/
+
+/-- 4. Cell `(i, j)` of the output of `jaccarddist_matrix` is `dist q_i refs[idx_j]`: for every
+chunk size (also larger than the number of references, and `None`), every index selection
+(repeats, any order), and whatever the `out` buffer held before. -/
+theorem matrix_cells {α β γ : Type} [Inhabited β] (dist : α → β → γ) (queries : List α)
+    (refs : List β) (refIdx : Option (List Nat)) (chunk : Option Nat)
+    (hchunk : ∀ c, chunk = some c → 0 < c) (out : List (List γ))
+    (hlen : out.length = queries.length)
+    (hrows : ∀ row ∈ out, row.length = (refIdx.getD (List.range refs.length)).length) :
+    matrixModel dist queries refs refIdx chunk out =
+      queries.map (fun q => (refIdx.getD (List.range refs.length)).map
+        (fun j => dist q (refs.getD j default))) := by
+  unfold matrixModel
+  simp only []
+  generalize refIdx.getD (List.range refs.length) = idxs at hrows ⊢
+  rw [foldl_zipWith_rows queries
+    (fun (ab : Nat × Nat) q row => writeSlice row ab.1
+      (arrayDists dist q ((slc idxs ab.1 ab.2).map (fun j => refs.getD j default))))
+    _ (fun o ab ho => matrixChunk_eq_zipWith dist queries _ ab.1 o ho) _ out hlen]
+  apply List.ext_getElem?
+  intro i
+  rw [List.getElem?_zipWith, List.getElem?_map]
+  by_cases hi : i < queries.length
+  · have hi' : i < out.length := by omega
+    rw [List.getElem?_eq_getElem hi, List.getElem?_eq_getElem hi']
+    simp only [Option.map_some]
+    congr 1
+    have hrow : out[i].length = idxs.length := hrows _ (List.getElem_mem hi')
+    simp only [arrayDists_slc]
+    generalize hv : idxs.map (fun j => dist queries[i] (refs.getD j default)) = vals
+    have hvl : vals.length = idxs.length := by rw [← hv, List.length_map]
+    rw [← hvl] at hrow ⊢
+    cases chunk with
+    | none =>
+      simp only [List.foldl_cons, List.foldl_nil]
+      exact writeSlice_all _ _ hrow
+    | some c =>
+      exact rowFold_chunks vals c (hchunk c rfl) vals.length 0 _ hrow rfl (by omega)
+  · rw [List.getElem?_eq_none (Nat.le_of_not_lt hi)]
+    rfl
+
+/-! ### 5. `jaccarddist_pairwise(flat=False)`
+
+`entry m i j = m[i]?.bind (·[j]?)` is entry `(i, j)` of a list-of-rows matrix. -/
+
+/-- 5a. Zero diagonal. -/
+theorem pairwiseSquare_diag {α γ : Type} (dist : α → α → γ) (zero : γ) (sigs : List α) (i : Nat)
+    (hi : i < sigs.length) : entry (pairwiseSquare dist zero sigs) i i = some zero := by
+  rw [pairwiseSquare_entry, if_pos ⟨hi, hi⟩, sqCell_self]
+
+/-- 5b. Symmetric, unconditionally (also outside the matrix, where both sides are `none`). -/
+theorem pairwiseSquare_symm {α γ : Type} (dist : α → α → γ) (zero : γ) (sigs : List α) (i j : Nat) :
+    entry (pairwiseSquare dist zero sigs) i j = entry (pairwiseSquare dist zero sigs) j i := by
+  rw [pairwiseSquare_entry, pairwiseSquare_entry, sqCell_symm]
+  by_cases h : i < sigs.length ∧ j < sigs.length
+  · rw [if_pos h, if_pos ⟨h.2, h.1⟩]
+  · rw [if_neg h, if_neg (fun h' => h ⟨h'.2, h'.1⟩)]
+
+/-- 5c. Off the diagonal, entries `(i, j)` and `(j, i)` are both `dist sigs[i] sigs[j]`, `i < j`. -/
+theorem pairwiseSquare_cell {α γ : Type} (dist : α → α → γ) (zero : γ) (sigs : List α) (i j : Nat)
+    (hij : i < j) (hj : j < sigs.length) :
+    entry (pairwiseSquare dist zero sigs) i j = some (dist (sigs[i]'(Nat.lt_trans hij hj)) sigs[j]) ∧
+    entry (pairwiseSquare dist zero sigs) j i = some (dist (sigs[i]'(Nat.lt_trans hij hj)) sigs[j]) := by
+  have h : entry (pairwiseSquare dist zero sigs) i j =
+      some (dist (sigs[i]'(Nat.lt_trans hij hj)) sigs[j]) := by
+    rw [pairwiseSquare_entry, if_pos ⟨Nat.lt_trans hij hj, hj⟩, sqCell_lt dist zero sigs i j hij hj]
+  exact ⟨h, by rw [pairwiseSquare_symm]; exact h⟩
+
+/-- 5d. The loop of the code — zero the diagonal, then for each `i` write row `i` right of the
+diagonal and mirror it into column `i` — produces the closed form, whatever the `n × n` buffer
+held before. -/
+theorem pairwiseSquareLoop_eq {α γ : Type} (dist : α → α → γ) (zero : γ) (sigs : List α)
+    (out : List (List γ)) (hlen : out.length = sigs.length)
+    (hrows : ∀ row ∈ out, row.length = sigs.length) :
+    pairwiseSquareLoop dist zero sigs out = pairwiseSquare dist zero sigs :=
+  pairwiseSquareLoop_eq' dist zero sigs out hlen hrows
+
+/-! ### 6. `jaccarddist_pairwise(flat=True)` -/
+
+theorem pairwiseFlat_length {α γ : Type} (dist : α → α → γ) (sigs : List α) :
+    (pairwiseFlat dist sigs).length = sigs.length * (sigs.length - 1) / 2 := by
+  rw [pairwiseFlat_eq]
+  have h1 := flatPrefix_length2 dist sigs (sigs.length - 1) (by omega)
+  by_cases h0 : sigs.length = 0
+  · simp [h0]
+  · have e : sigs.length - 1 + 1 = sigs.length := by omega
+    rw [e, Nat.mul_comm (sigs.length - 1) sigs.length] at h1
+    omega
+
+/-- 6. The distance of the pair `i < j` sits at its SciPy condensed (`squareform`) offset. -/
+theorem pairwiseFlat_get {α γ : Type} (dist : α → α → γ) (sigs : List α) (i j : Nat) (hij : i < j)
+    (hj : j < sigs.length) :
+    (pairwiseFlat dist sigs)[condensedIndex sigs.length i j]? =
+      some (dist (sigs[i]'(Nat.lt_trans hij hj)) sigs[j]) := by
+  rw [pairwiseFlat_eq, ← flatRow_get dist sigs i j hij hj]
+  unfold condensedIndex
+  rw [← flatPrefix_length dist sigs i (by omega)]
+  exact flatMap_range_get _ _ i _ (by omega) (by rw [flatRow_length]; omega)
+
+/-! ### 7. Non-vacuity -/
+
+section Examples
+
+/-- A distance from which both arguments can be read off. -/
+private def d (a b : Nat) : Nat := 10 * a + b
+
+-- 2 queries × 5 references, `ref_indices = [4, 0, 0, 2]` (repeat, out of order), `chunksize = 3`
+-- (so chunks `0:3` and `3:6`, the last one clamped), junk in `out`.
+example : matrixModel d [1, 2] [0, 1, 2, 3, 4] (some [4, 0, 0, 2]) (some 3)
+    [[77, 77, 77, 77], [88, 88, 88, 88]] = [[14, 10, 10, 12], [24, 20, 20, 22]] := by decide
+
+-- the same through `matrix_cells`' right-hand side
+example : [1, 2].map (fun q => [4, 0, 0, 2].map (fun j => d q ([0, 1, 2, 3, 4].getD j default))) =
+    [[14, 10, 10, 12], [24, 20, 20, 22]] := by decide
+
+-- chunk size larger than the number of references, and no chunking
+example : matrixModel d [1, 2] [0, 1, 2] none (some 7) [[9, 9, 9], [9, 9, 9]] =
+    [[10, 11, 12], [20, 21, 22]] := by decide
+example : matrixModel d [1, 2] [0, 1, 2] none none [[9, 9, 9], [9, 9, 9]] =
+    [[10, 11, 12], [20, 21, 22]] := by decide
+
+example : chunkSlices 7 3 = [(0, 3), (3, 6), (6, 9)] := by decide
+example : chunkSlices 6 3 = [(0, 3), (3, 6)] := by decide
+
+-- two different schedules, same result
+example : prangeRun (fun i => d 7 i) [2, 0, 3, 1] [0, 0, 0, 0] = [70, 71, 72, 73] := by decide
+example : prangeRun (fun i => d 7 i) [1, 3, 0, 2] [5, 6, 7, 8] = [70, 71, 72, 73] := by decide
+example : [2, 0, 3, 1].Perm (List.range 4) := by decide
+-- a partial schedule leaves the other cells alone
+example : prangeRun (fun i => d 7 i) [3, 1] [5, 6, 7, 8] = [5, 71, 7, 73] := by decide
+
+-- pairwise, 4 items, junk buffer
+example : pairwiseSquareLoop d 0 [1, 2, 3, 4]
+    [[9, 9, 9, 9], [9, 9, 9, 9], [9, 9, 9, 9], [9, 9, 9, 9]] =
+    [[0, 12, 13, 14], [12, 0, 23, 24], [13, 23, 0, 34], [14, 24, 34, 0]] := by decide
+example : pairwiseSquare d 0 [1, 2, 3, 4] =
+    [[0, 12, 13, 14], [12, 0, 23, 24], [13, 23, 0, 34], [14, 24, 34, 0]] := by decide
+
+example : pairwiseFlat d [1, 2, 3, 4] = [12, 13, 14, 23, 24, 34] := by decide
+example : condensedIndex 4 1 3 = 4 := by decide
+example : (pairwiseFlat d [1, 2, 3, 4])[condensedIndex 4 1 3]? = some 24 := by decide
+
+end Examples
+
 end GambitV.C05
